@@ -23,13 +23,39 @@ def alg_cases(draw, tier, pairs=None, schemes=None, shapes=None, kinds=None, fla
                            kinds=kinds))
     flag = draw(st.sampled_from(list(flags)))
     rng = draw(st.integers(0, 2 ** 16)) if cfg.rng else 0
-    return {"config": name, "env": env, "scheme": scheme, "dataset": ds, "at_most_one": flag, "rng": rng}
+    # one case in four hands the algorithm a Dataset object that reached these rankings through an in-place mutation
+    # (built with an extra element, then remove_elements): flags, ids and caches must be those of the current rankings
+    via = draw(st.integers(0, 3)) == 0 and all(len(r) > 0 for r in ds["rankings"])
+    return {"config": name, "env": env, "scheme": scheme, "dataset": ds, "at_most_one": flag, "rng": rng,
+            "via_mutation": [draw(st.integers(0, 10 ** 6)) for _ in range(len(ds["rankings"]))] if via else None}
+
+
+def build_dataset(case):
+    rankings = case["dataset"]["rankings"]
+    via = case.get("via_mutation")
+    if not via:
+        return lib.mk_dataset(rankings)
+    names = [e for r in rankings for b in r for e in b]
+    extra = (max([abs(e) for e in names] + [0]) + 4242) if all(isinstance(e, int) for e in names) else "zzextra"
+    bigger = []
+    for r, k in zip(rankings, via):
+        rr = [list(b) for b in r]
+        pos = k % (2 * len(rr) + 1)
+        if pos % 2 == 0:
+            rr.insert(pos // 2, [extra])
+        else:
+            rr[pos // 2] = rr[pos // 2] + [extra]
+        bigger.append(rr)
+    d = lib.mk_dataset(bigger)
+    d.unified_rankings()                      # anything computed before the mutation must not survive it
+    d.remove_elements({lib.Element(extra)})
+    return d
 
 
 def run_case(case):
     """-> (status, consensus_or_exception, algorithm, dataset_obj, scheme_obj); unexpected library exceptions become
     Violations (undocumented failure mode)"""
-    d = lib.mk_dataset(case["dataset"]["rankings"])
+    d = build_dataset(case)
     s = lib.mk_scheme(case["scheme"])
     st_, (status, val, alg) = lib.call(configs.run, case["config"], case["env"], d, s, case["at_most_one"],
                                        case.get("rng", 0))
